@@ -163,7 +163,7 @@ def run(ctx):
         distributions("something_else")
         ctx.violated(r4, di_m, "distributions[unknown base]", "an unknown base distribution is accepted silently", expected="raise ValueError")
     except Undecided as e:
-        if "raise reached" in str(e) and raises_other:
+        if "raise reached" in str(e) and ("ValueError" in str(e) or raises_other):  # raised here or in a helper method the choice was moved into
             ctx.holds(r4, f"{CALC}::distributions[unknown]", "raises")
         else:
             ctx.unrecognised(r4, di_m, "distributions[unknown]", str(e))
